@@ -56,6 +56,11 @@ async fn seg_rr(seg: u64, rng: &mut rand_chacha::ChaCha8Rng, events: &mut Vec<Va
         let _ = a.connect_peer(&net::addr_for(10 + i)).await;
     }
     net::settle().await;
+    // in every other segment a send stays suspended inside the transport for a while (a full flow-control window):
+    // cancellations then also strike between the registration of the pending entry and the completion of the send
+    if seg % 6 == 3 {
+        hub.st.lock().expect("hub").send_delay_max_ms = 150;
+    }
     let start = tokio::time::Instant::now();
     let ncalls = rng.gen_range(1..6);
     let log: Arc<Mutex<Vec<(u64, Value)>>> = Arc::new(Mutex::new(Vec::new()));
@@ -64,7 +69,7 @@ async fn seg_rr(seg: u64, rng: &mut rand_chacha::ChaCha8Rng, events: &mut Vec<Va
     for c in 0..ncalls {
         let peer = peers[rng.gen_range(0..2)].clone();
         let at = rng.gen_range(0..300u64);
-        let abort_at = if rng.gen_bool(0.2) { Some(at + rng.gen_range(50..1500u64)) } else { None };
+        let abort_at = if rng.gen_bool(0.2) { Some(at + if rng.gen_bool(0.3) { rng.gen_range(0..150u64) } else { rng.gen_range(50..1500u64) }) } else { None };
         plans.push((c, peer.clone(), at, plan(rng), abort_at));
         let a2 = a.clone();
         let log2 = log.clone();
